@@ -27,7 +27,7 @@ func init() {
 	extraLemmaFuncs = append(extraLemmaFuncs, c15LemmaFuncs...)
 	Register(&Spec{
 		ID:          "C15",
-		Explanation: "Checks the generator as a program, without running it: (R1) the template text actually compiled in (the string constant passed to Parse in templates.go, parsed with text/template/parse) has, in every field template, getters that start with the _checktag snippet, setters and New... functions that start with _settag and Has... functions from _hasfield; the three snippets test/write Uint16(.Node.DiscriminantOffset) against .Field.DiscriminantValue; data templates pass the same .Offset and .Bits to UintN and SetUintN and XOR .Default on both sides, bool and pointer templates pass .Field.Slot.Offset; every file under templates/ parses to the same tree as its embedded definition; (R2) the parameter code computes Offset = Slot.Offset * Bits/8, DiscriminantOffset*2 and the bit widths per type (normal forms); (R4) no map is ranged over in the generator (output order cannot depend on map iteration); (R5) no error is dropped in the generator and no function returns an error variable that is known nil after testing a different one; (R6) imports.reserve appends a spec to the import table only on control-flow edges that carry 'byName found no import of that name' (import names in the emitted file are unique). Does NOT decide that emitted code compiles nor that emitted bytes are right for a given schema.",
+		Explanation: "Checks the generator as a program, without running it: (R1) the template text actually compiled in (the string constant passed to Parse in templates.go, parsed with text/template/parse) has, in every field template, getters that start with the _checktag snippet, setters and New... functions that start with _settag and Has... functions from _hasfield; the three snippets test/write Uint16(.Node.DiscriminantOffset) against .Field.DiscriminantValue; data templates pass the same .Offset and .Bits to UintN and SetUintN and XOR .Default on both sides, bool and pointer templates pass .Field.Slot.Offset; every file under templates/ parses to the same tree as its embedded definition; (R2) the parameter code computes Offset = Slot.Offset * Bits/8, DiscriminantOffset*2 and the bit widths per type (normal forms); (R4) no map is ranged over in the generator (output order cannot depend on map iteration); (R5) no error is dropped in the generator and no function returns an error variable that is known nil after testing a different one; (R6) imports.reserve appends a spec to the import table only on control-flow edges that carry 'byName found no import of that name' (import names in the emitted file are unique); (R6i) importForNode omits the import only where the two nodes have the same import path. Does NOT decide that emitted code compiles nor that emitted bytes are right for a given schema.",
 		Run:         runC15,
 	})
 }
@@ -39,6 +39,7 @@ func runC15(ctx *Ctx) {
 	}
 	ruleNoMapRange(ctx, "C15-R4")
 	ruleImportNamesUnique(ctx, "C15-R6")
+	ruleImportOnlyOmittedForSamePath(ctx, "C15-R6i")
 	ruleFloatMaskUnconditional(ctx, "C15-R7")
 	ruleNoNarrowSchemaArithmetic(ctx, "C15-R8")
 	ruleErrorsNotDropped(ctx, "C15-R5", []string{"capnpc-go"}, nil, func(callee string) bool {
